@@ -43,6 +43,7 @@ int c14_in_lock;
 int on_cv;                    /* the thread is waiting on CV (its record is on CV's queue) */
 int cv_unlinked, cv_wake_delay;  /* two-step wake-up by a signaller: unlinked under the cv spinlock, flag cleared later */
 int woken_by_signal;          /* a signaller dequeued the thread's record from CV (it consumed a wake-up) */
+int timed_wait;                /* the thread's wait has a finite deadline */
 int cond_var;                 /* the condition of the thread's own nsync_mu_wait; other threads change it in their critical sections */
 int writer_release_expect_clear = 1;   /* C06: a writer's release by nsync_mu_unlock leaves MU_ALL_FALSE clear */             /* inside nsync_mu_lock / nsync_mu_rlock (C14 obligations on the queueing) */
 waiter Q[NQ];
@@ -72,7 +73,9 @@ static int rely_ok (uint32_t w) {
 
 void vf_env (void *addr) {
 	if (addr == (void *) &MU.word) {
-		if (env_left > 0 && (vf_nondet_nv () & 1) != 0) {
+		/* a thread that holds the write lock AND the queue spinlock owns the word: every other writer of the word needs one of the two
+		   to be free (acquisitions need the lock bits clear, queue operations and hint-bit updates need the spinlock) */
+		if (env_left > 0 && !(g_mode == M_W && g_spin) && (vf_nondet_nv () & 1) != 0) {
 			uint32_t w = vf_nondet_nv ();
 			vf_assume (rely_ok (w));
 			env_left--;
@@ -106,8 +109,9 @@ void vf_env (void *addr) {
 			} else {
 				cv_wake_delay++;
 			}
-		} else if (!on_cv) {
-			/* the thread sleeps on the mutex: some unlocker dequeues it, marks it designated waker and wakes it */
+		} else if (!on_cv && !(timed_wait && (vf_nondet_nv () & 1) != 0)) {
+			/* the thread sleeps on the mutex: some unlocker dequeues it, marks it designated waker and wakes it
+			   (in a timed wait the unlocker may also not come: the timeout path must then re-acquire by itself) */
 			MU.waiters = nsync_remove_from_mu_queue_ (MU.waiters, &me->nw.q);
 			*(uint32_t *) &me->nw.waiting = 0;
 			g_desig = 1; ever_slept = 1; sleeps++;
@@ -130,6 +134,8 @@ void vf_guar (void *addr, uint32_t o, uint32_t n) {
 		uint32_t ro = READERS (o), rn = READERS (n);
 		int acquired = 0;
 		vf_assert (inv (n));                                             /* C01: never a writer together with readers */
+		/* discharges the rely "a thread holding the write lock and the spinlock owns the word": nobody else writes it then */
+		if ((o & MU_WLOCK) != 0 && (o & MU_SPINLOCK) != 0) { vf_assert (g_mode == M_W || g_spin); }
 		if (taken_w) {
 			if (g_mode == M_R) { vf_assert (ro == 1 && rn == 0); }     /* C01: only the last reader converts itself into the writer (not a new acquisition) */
 			else { vf_assert (g_mode == M_NONE && ro == 0 && rn == 0); acquired = 1; } /* C01: writer bit added only to a free mutex by a thread holding nothing */
@@ -221,6 +227,7 @@ void h_mu_wait (void) {       /* C05: returns holding the mutex in the mode of e
 	int r;
 	setup ((k & 1) ? M_R : M_W);
 	cond_var = 0;
+	timed_wait = (k & 2) != 0;
 	writer_release_expect_clear = 0;     /* the wait itself releases the lock without having changed anything */
 	r = nsync_mu_wait_with_deadline (&MU, &cond_plain, &cond_var, 0, (k & 2) ? nsync_time_s_ns (50, 0) : nsync_time_no_deadline, 0);
 	vf_assert (g_mode == ((k & 1) ? M_R : M_W) && !g_spin);
